@@ -74,7 +74,7 @@ def try_edges(body, call):
                     v = flow.switch_on_variant(body, sw)
                     if v is None:
                         return None
-                    _, adt, m, other, _ = v
+                    _, adt, m, other, _, _ = v
                     return m.get("Continue"), m.get("Break"), nxt
                 if t["k"] in ("goto", "drop"):
                     sw = t["target"]
@@ -120,7 +120,7 @@ def arm_map(body, switch_bb):
     v = flow.switch_on_variant(body, switch_bb)
     if v is None:
         return None
-    pl, adt, m, other, allv = v
+    pl, adt, m, other, allv, _ = v
     regs = exclusive_regions(body, list(m.values()) + [other], switch_bb)
     return {name: regs[t] for name, t in m.items()}, adt, pl, regs.get(other, set()), allv
 
